@@ -1,6 +1,8 @@
 package main
 
 import (
+	"io"
+	"log"
 	"flag"
 	"fmt"
 	"os"
@@ -12,6 +14,11 @@ import (
 func init() {
 	// the server package raises the global stdr verbosity when it is loaded
 	stdr.SetVerbosity(0)
+	// the server logs every rejected transaction to os.Stderr (captured when it is created)
+	if f, err := os.OpenFile(os.DevNull, os.O_WRONLY, 0); err == nil && os.Getenv("VERIF_SERVER_LOG") == "" {
+		os.Stderr = f
+	}
+	log.SetOutput(io.Discard)
 }
 
 var props = map[string]func(r *Run){}
